@@ -150,3 +150,121 @@ pub fn take_strays() -> Vec<(u64, u64)> {
     }
     v
 }
+
+
+// ------------------------------------------------------------------------------------------
+// software MMU for recursive page-table addresses
+
+pub const MMU_SLOTS: usize = 256;
+/// slot -> physical frame address (u64::MAX = unassigned); mirror of PhysMem::rev for the handler
+pub static MMU_FRAME: [AtomicU64; MMU_SLOTS] = [const { AtomicU64::new(u64::MAX) }; MMU_SLOTS];
+pub static MMU_FD: AtomicU64 = AtomicU64::new(0);
+pub static MMU_RIX: AtomicU64 = AtomicU64::new(u64::MAX);
+pub static MMU_CR3: AtomicU64 = AtomicU64::new(0);
+pub const MMU_MAXLOG: usize = 2048;
+/// (virtual page, reached frame, kind): kind 0 = table frame of the arena mapped,
+/// 1 = walk hit a non-present entry (page fault of the code under test), 2 = walk left the arena,
+/// 3 = reached a frame that is not in the arena (e.g. a data frame)
+pub static MMU_LOG: [[AtomicU64; 3]; MMU_MAXLOG] = [const { [const { AtomicU64::new(0) }; 3] }; MMU_MAXLOG];
+pub static MMU_NLOG: AtomicUsize = AtomicUsize::new(0);
+
+unsafe fn arena_slot(pa: u64) -> Option<usize> {
+    for (i, f) in MMU_FRAME.iter().enumerate() {
+        if f.load(Ordering::Relaxed) == pa {
+            return Some(i);
+        }
+    }
+    None
+}
+
+/// hardware-style walk of the simulated tables for a recursive-region address; maps the result
+pub unsafe fn mmu_fault(addr: u64, _rip: u64) -> bool {
+    let rix = MMU_RIX.load(Ordering::Relaxed);
+    if rix == u64::MAX || (addr >> 39) & 0x1ff != rix || addr >> 47 != 0 {
+        return false;
+    }
+    const MASK: u64 = 0x000f_ffff_ffff_f000;
+    let fd = MMU_FD.load(Ordering::Relaxed) as i32;
+    let page = addr & !0xfff;
+    let mut cur = MMU_CR3.load(Ordering::Relaxed) & MASK;
+    let mut kind = 0u64;
+    let mut lvl = 4;
+    let mut target = 0u64;
+    while lvl >= 1 {
+        let idx = ((addr >> (12 + 9 * (lvl - 1))) & 0x1ff) as usize;
+        let slot = match arena_slot(cur) {
+            Some(s) => s,
+            None => {
+                kind = 2;
+                target = cur;
+                break;
+            }
+        };
+        // read the entry through a private mapping-free path: pread on the memfd
+        let mut e: u64 = 0;
+        let n = libc::pread(fd, &mut e as *mut u64 as *mut libc::c_void, 8, (slot * 4096 + idx * 8) as libc::off_t);
+        if n != 8 {
+            return false;
+        }
+        if e & 1 == 0 {
+            kind = 1;
+            target = 0;
+            break;
+        }
+        if lvl > 1 && e & 0x80 != 0 {
+            let size = 1u64 << (12 + 9 * (lvl - 1));
+            target = ((e & MASK) & !(size - 1)) + (addr & (size - 1) & !0xfff);
+            break;
+        }
+        cur = e & MASK;
+        target = cur;
+        lvl -= 1;
+    }
+    let tslot = if kind == 0 { arena_slot(target) } else { None };
+    if kind == 0 && tslot.is_none() {
+        kind = 3;
+    }
+    let n = MMU_NLOG.fetch_add(1, Ordering::Relaxed);
+    if n < MMU_MAXLOG {
+        MMU_LOG[n][0].store(page, Ordering::Relaxed);
+        MMU_LOG[n][1].store(target, Ordering::Relaxed);
+        MMU_LOG[n][2].store(kind, Ordering::Relaxed);
+    }
+    let p = match tslot {
+        Some(s) => libc::mmap(
+            page as *mut libc::c_void,
+            4096,
+            libc::PROT_READ | libc::PROT_WRITE,
+            libc::MAP_SHARED | libc::MAP_FIXED,
+            fd,
+            (s * 4096) as libc::off_t,
+        ),
+        None => libc::mmap(
+            page as *mut libc::c_void,
+            4096,
+            libc::PROT_READ | libc::PROT_WRITE,
+            libc::MAP_PRIVATE | libc::MAP_ANONYMOUS | libc::MAP_FIXED,
+            -1,
+            0,
+        ),
+    };
+    p as u64 == page
+}
+
+/// (page, frame, kind) of every soft-MMU fill since the last call; drops all those mappings
+pub fn take_mmu() -> Vec<(u64, u64, u64)> {
+    let n = MMU_NLOG.swap(0, Ordering::Relaxed).min(MMU_MAXLOG);
+    let mut v = Vec::new();
+    for i in 0..n {
+        let pg = MMU_LOG[i][0].load(Ordering::Relaxed);
+        v.push((pg, MMU_LOG[i][1].load(Ordering::Relaxed), MMU_LOG[i][2].load(Ordering::Relaxed)));
+        unsafe {
+            libc::munmap(pg as *mut libc::c_void, 4096);
+        }
+    }
+    v
+}
+
+pub fn mmu_install() {
+    MMU_HOOK.store(mmu_fault as usize, Ordering::SeqCst);
+}
